@@ -229,3 +229,44 @@ func orZero(s string) string {
 	}
 	return s
 }
+
+// CanonWrites canonicalises a rendered write sequence so that behaviour-preserving rewrites do not disturb the comparison:
+// inside one atomic batch only the last operation on a key counts and the order of operations is irrelevant; the batches of
+// the state commit (code, storage tries, account trie — nothing refers to them before the block bulk) are compared as a set.
+func CanonWrites(rendered string) string {
+	if rendered == "" {
+		return ""
+	}
+	batches := strings.Split(rendered, " | ")
+	isState := func(b string) bool {
+		for _, op := range strings.Fields(b) {
+			k := op[1:]
+			if !(strings.HasPrefix(k, "c:") || strings.HasPrefix(k, "n:0:") || strings.HasPrefix(k, "n:1:")) {
+				return false
+			}
+		}
+		return true
+	}
+	for i, b := range batches {
+		last := map[string]string{}
+		for _, op := range strings.Fields(b) {
+			k := op[1:]
+			if j := strings.Index(k, "="); j >= 0 {
+				k = k[:j]
+			}
+			last[k] = op
+		}
+		ops := make([]string, 0, len(last))
+		for _, op := range last {
+			ops = append(ops, op)
+		}
+		sort.Strings(ops)
+		batches[i] = strings.Join(ops, " ")
+	}
+	n := 0
+	for n < len(batches) && isState(batches[n]) {
+		n++
+	}
+	sort.Strings(batches[:n])
+	return strings.Join(batches, " | ")
+}
